@@ -222,6 +222,12 @@ func BuildRequest(r davtree.Req) (*http.Request, error) {
 		req.Header.Set("Destination", escPath(r.Dest))
 	case "url":
 		req.Header.Set("Destination", "http://"+Host+escPath(r.Dest))
+	case "url-upper":
+		req.Header.Set("Destination", "http://"+strings.ToUpper(Host)+escPath(r.Dest))
+	case "url-port":
+		req.Header.Set("Destination", "http://"+Host+":80"+escPath(r.Dest))
+	case "netpath":
+		req.Header.Set("Destination", "//"+Host+escPath(r.Dest))
 	case "slash":
 		d := escPath(r.Dest)
 		if !strings.HasSuffix(d, "/") {
@@ -272,6 +278,38 @@ func (e *Env) ServeServerSide(sreq *http.Request) Resp {
 	res := rec.Result()
 	b, _ := ioutil.ReadAll(res.Body)
 	return Resp{Code: rec.Code, Header: res.Header, Body: b, Panicked: panicked, PanicVal: fmt.Sprint(pv), Stack: stack}
+}
+
+// goneWriter is a client that goes away: it takes left bytes of the answer,
+// then every Write fails.
+type goneWriter struct {
+	h    http.Header
+	left int
+}
+
+func (w *goneWriter) Header() http.Header { return w.h }
+func (w *goneWriter) WriteHeader(int)     {}
+func (w *goneWriter) Write(p []byte) (int, error) {
+	n := len(p)
+	if n > w.left {
+		n = w.left
+	}
+	w.left -= n
+	if n < len(p) {
+		return n, fmt.Errorf("verif: the client has gone away")
+	}
+	return n, nil
+}
+
+// ServeUndelivered serves a read-only request whose answer cannot be
+// delivered beyond its first k bytes. Nothing is judged but a panic; the point
+// is what such a request leaves behind for the requests that follow.
+func (e *Env) ServeUndelivered(req *http.Request, k int) (panicked bool, pv interface{}, stack string) {
+	sreq, err := doubles.ServerRequest(req)
+	if err != nil {
+		return false, nil, ""
+	}
+	return fw.Guard(func() { e.H.ServeHTTP(&goneWriter{h: http.Header{}, left: k}, sreq) })
 }
 
 // Snap snapshots the served directory.
